@@ -372,24 +372,24 @@ def main(tier):
             dk = [k for k in outs if outs[k] != ref_out[1].get(k)]
             chk.violation('build-variant|%s|different-output' % cfg, {'kind': 'config', 'variant': cfg, 'cells': [str(k) for k in dk[:5]]}, 'build variant %s writes different files than %s for %s' % (cfg, ref_out[0], dk[:3]))
     # ---- E-sched
-    sched = {}
+    import c09_sched, mclib
     try:
-        import c09_sched
         sched = c09_sched.sched_part(chk, tier) or {}
-    except ImportError:
-        chk.cov['sched_part'] = 'not available'
+    except mclib.MachineryError as e:
+        print('MACHINERY-ERROR C09: %s' % e)
+        return 2
     chk.add(evaluations=runs)
     chk.cov['states'] = cells + nb + nvar + sched.get('states', 0)
     chk.cov['transitions'] = runs + sched.get('transitions', 0)
     chk.cov['traces_validated_against_impl'] = runs + sched.get('schedules', 0)
-    chk.cov['distinct_nontrivial'] = cells + nb
+    chk.cov['distinct_nontrivial'] = cells + nb          # schedules are counted in states/transitions/traces, not here
     chk.cov['config_cells'] = cells
     chk.cov['behaviour_variants_linked_and_run'] = nb
     chk.cov['build_variants'] = nvar
     chk.cov['sched'] = sched
     chk.cov['rule'] = ('E-config: 3 base modules x {-p}x{-m}x{-g} x {-f 0..#f+1} x {-t 1,2,3,64} x {-d arrays,gnu-ld} x {-r none,self,one-body-changed,locals-changed,disjoint}; '
                        'oracles i-iv, vi per cell; (v) linked variants (gnu-ld via ld -r -b binary) run in lockstep with the reference interpreter; (vii) translator built in the '
-                       'HAS_PTHREAD x HAS_GETOPT x HAS_LIBGEN x HAS_STRDUP configurations must write identical files; E-sched: see the sched block. '
+                       'HAS_PTHREAD x HAS_GETOPT x HAS_LIBGEN x HAS_STRDUP configurations must write identical files; E-sched: the real producer/worker protocol under the controlled scheduler - every interleaving of its mutex/condition operations up to the preemption bound, see the sched block. '
                        'states = option cells + linked variants + build variants (+ distinct end states of schedules)')
     chk.sample({'cell': 'B1 -p -m -f 2 -t 3 -d gnu-ld ref=one-body-changed', 'oracles': ['exactly-once', 'text = -t 1 -f 0 run', 'static => identical body in reference', 'each file compiles', 'two runs identical']})
     chk.assumptions += ['#line directives from DWARF need libdwarf, which is not installed: -g is exercised with name sections only']
